@@ -12,7 +12,7 @@ namespace Liftbridge.Driver
 open Liftbridge
 
 structure St where
-  log : Log.CLog := Log.CLog.init 1024 false
+  log : LogSt := {}
 
 def showRes {α} (f : α → String) : Res α → String
   | .ok a => "ok " ++ f a
